@@ -207,6 +207,17 @@ func redactCommand(cmd *orderedmap.OrderedMap[string, any], shouldEagerRedact bo
 			cmd.Set("deletes", redactArrayValues(deletesArr, shouldEagerRedact, false, false, []string{}))
 		}
 	}
+	if ops, ok := cmd.Get("ops"); ok {
+		if opsArr, ok := ops.([]any); ok {
+			// bulkWrite: one entry per operation (document / filter / updateMods)
+			cmd.Set("ops", redactArrayValues(opsArr, shouldEagerRedact, false, false, []string{}))
+		}
+	}
+	if arrayFilters, ok := cmd.Get("arrayFilters"); ok {
+		if arrayFiltersArr, ok := arrayFilters.([]any); ok {
+			cmd.Set("arrayFilters", redactArrayValues(arrayFiltersArr, shouldEagerRedact, false, false, []string{}))
+		}
+	}
 	if update, ok := cmd.Get("q"); ok {
 		if updateMap, ok := update.(*orderedmap.OrderedMap[string, any]); ok {
 			cmd.Set("q", redactQueryValues(updateMap, shouldEagerRedact, false, nil, []string{}))
